@@ -48,6 +48,17 @@ Line-protocol operations for the module resolver (C13).
   mod.find_external <fs> <dir path> <own> <parsed paths> <name hex> <attrs>
         -> none | ext:<path>:<own> | multi:<path>:<own>;<path>:<own>.. | err:<kind>
                                                                   `find_external_module`
+  mod.resolvec / mod.specc    as `mod.resolve` / `mod.spec`, with the error kinds printed as the classes the
+                                    binary's messages distinguish (`kindc`): `notfound` and `pathattr` are both
+                                    `missing` ("… does not exist")
+  mod.filemapc                as `mod.filemap`, error kinds as `kindc`
+  mod.oracle <fs> <root path> <skip_children> <format_generated_files> <ignored paths> <impl answer>
+        -> ok | spec:<paths> | spec:err:<kindc>
+                                    the specification as an oracle on what the implementation did
+                                    (`impl answer` = paths | err:<kindc>), in the shape of
+                                    `formatProject_matches_spec_partial`: both succeed with the same set, or both
+                                    report an error (of any class), or the specification says `circular`/`fuel`
+                                    (a module cycle: the statement of C13 is silent there)
   mod.hyps <fs> <root path>
         -> plain:<0|1>,closed:<0|1>,unique:<0|1>,probe:<0|1> | err:root
                                     are the hypotheses of `resolver_refines_spec_partial` established
@@ -175,6 +186,15 @@ def encKind : ErrKind → String
   | .parse => "parse" | .root => "root" | .fuel => "fuel" | .circular => "circular"
   | .panic => "panic"
 
+/-- The classes the messages of the binary distinguish. -/
+def encKindC : ErrKind → String
+  | .notfound => "missing" | .pathattr => "missing"
+  | k => encKind k
+
+def encResultC {α} (enc : α → String) : Except ErrKind α → String
+  | .ok a => enc a
+  | .error k => "err:" ++ encKindC k
+
 def encOwn : Ownership → String
   | .unownedViaBlock => "unowned"
   | .owned none => "owned:-"
@@ -188,6 +208,15 @@ def decOwn (s : String) : Option Ownership :=
     | _ => none
 
 def fuelFor (fs : FS) : Nat := 4 * fs.length + 8
+
+/-- `closure false fs rounds S`, stopping at the first round that adds nothing (`expand` only appends new
+contexts, so an unchanged length is a fixed point and all further rounds are the identity): the same list,
+computed in as many rounds as the tree is deep instead of `rounds`. -/
+def closureFix (fs : FS) : Nat → List Ctx → List Ctx
+  | 0, S => S
+  | n + 1, S =>
+    let S' := expand false fs S
+    if S'.length == S.length then S else closureFix fs n S'
 
 def mkConfig (skipChildren formatGenerated : Bool) (ignored : List Path) : Config :=
   { skipChildren := skipChildren, formatGeneratedFiles := formatGenerated,
@@ -215,6 +244,25 @@ def handle (op : String) (args : List String) : Option String :=
     let root ← decPath root
     let cfg := mkConfig (← decBit sc) (← decBit fg) (← decPaths ign)
     pure (encResult encPathSet (specFormatted fs (fuelFor fs) root cfg))
+  | "mod.resolvec", [fs, root, sc, fg, ign] => do
+    let fs ← decFS fs
+    let root ← decPath root
+    let cfg := mkConfig (← decBit sc) (← decBit fg) (← decPaths ign)
+    pure (encResultC encNameSet (formatProject fs (fuelFor fs) (.file root) cfg))
+  | "mod.specc", [fs, root, sc, fg, ign] => do
+    let fs ← decFS fs
+    let root ← decPath root
+    let cfg := mkConfig (← decBit sc) (← decBit fg) (← decPaths ign)
+    pure (encResultC encPathSet (specFormatted fs (fuelFor fs) root cfg))
+  | "mod.oracle", [fs, root, sc, fg, ign, impl] => do
+    let fs ← decFS fs
+    let root ← decPath root
+    let cfg := mkConfig (← decBit sc) (← decBit fg) (← decPaths ign)
+    match specFormatted fs (fuelFor fs) root cfg with
+    | .error .circular => pure "ok"
+    | .error .fuel => pure "ok"
+    | .error k => pure (if impl.startsWith "err:" then "ok" else "spec:err:" ++ encKindC k)
+    | .ok ps => pure (if impl == encPathSet ps then "ok" else "spec:" ++ encPathSet ps)
   | "mod.filemap", [fs, root, recursive] => do
     let fs ← decFS fs
     let root ← decPath root
@@ -223,6 +271,16 @@ def handle (op : String) (args : List String) : Option String :=
     | .ok skip items =>
       let own := (toDirectoryOwnership fs root).getD .unownedViaBlock
       pure (encResult (fun m => encNameSet (keys m))
+        (visitCrate fs (fuelFor fs) (.real root) skip items own recursive))
+    | _ => pure "err:root"
+  | "mod.filemapc", [fs, root, recursive] => do
+    let fs ← decFS fs
+    let root ← decPath root
+    let recursive ← decBit recursive
+    match parseFileAsModule fs root with
+    | .ok skip items =>
+      let own := (toDirectoryOwnership fs root).getD .unownedViaBlock
+      pure (encResultC (fun m => encNameSet (keys m))
         (visitCrate fs (fuelFor fs) (.real root) skip items own recursive))
     | _ => pure "err:root"
   | "mod.reachable", [fs, root] => do
@@ -279,7 +337,7 @@ def handle (op : String) (args : List String) : Option String :=
     match parseFileAsModule fs root with
     | .ok _ _ =>
       let own := (toDirectoryOwnership fs root).getD .unownedViaBlock
-      let S := closure false fs (fuelFor fs) [⟨root, own⟩]
+      let S := closureFix fs (fuelFor fs) [⟨root, own⟩]
       let b := fun (x : Bool) => if x then "1" else "0"
       let closed := decide ((⟨root, own⟩ : Ctx) ∈ S) && closedB false fs S
       pure s!"plain:{b (fsPlainB fs)},closed:{b closed},unique:{b (uniqueB S)},probe:{b (probeAgreesB fs S)}"
